@@ -216,4 +216,11 @@ def rb_binding_agreement(ctx: Ctx) -> None:
     binding_agreement(ctx)
 
 
-RULES = [r1_options_reach_assembler, r2_mapping_choices_total, r3_defines_are_integers, r4_one_pipeline, r5_symbol_file, r6_copier_header_shift, rb_binding_agreement]
+def rm_no_process_lifetime_results(ctx: Ctx) -> None:
+    """memoising decorators, module-level stores and mutable defaults on this property's mechanism (shared rule, caches.py)"""
+    from ..caches import state_rule
+
+    state_rule(ctx)
+
+
+RULES = [r1_options_reach_assembler, r2_mapping_choices_total, r3_defines_are_integers, r4_one_pipeline, r5_symbol_file, r6_copier_header_shift, rb_binding_agreement, rm_no_process_lifetime_results]
